@@ -325,11 +325,11 @@ def run_loop(case):
     cfg = dict(script=[[5, "T"], [9, "U"], [3, "T"]], seed=case["seed"],
                total_timesteps=int(rng.integers(60, 90)), learning_starts=8,
                batch_size=4, low=low.tolist(), high=high.tolist(), snapshots=False,
-               logger=False, exploration_noise=float(rng.choice([0.3, 1.0, 2.0])),
+               logger=False, exploration_noise=float(rng.choice([0.0, 0.3, 1.0, 2.0])),
                # large smoothing noise against a small clip: the clip is active
                # for most samples, so a widened / swapped clip is visible
-               noise_clip=float(rng.choice([0.05, 0.1])),
-               target_policy_noise=float(rng.choice([0.5, 1.0])),
+               noise_clip=float(rng.choice([0.0, 0.05, 0.1])),
+               target_policy_noise=float(rng.choice([0.0, 0.5, 1.0])),
                policy_delay=2, target_delay=5)
     if case.get("wrapped"):
         # the routine sees a wrapper with its own, different action space
